@@ -90,13 +90,13 @@ func init() {
 			if tier == "thorough" {
 				return 1500
 			}
-			return 100
+			return 200
 		},
 		MinNT: func(tier string) int {
 			if tier == "thorough" {
 				return 700
 			}
-			return 40
+			return 80
 		},
 		Run: runC11,
 		Assumptions: []string{
